@@ -26,8 +26,9 @@ def run(c):
               "non-trivial = the two grids, shard cases with a secondary shard, replica windows, aggregator schedules that "
               "saw a recent accept, a rounded accept and a historic accept; distinct by op-sequence hash")
     c.assumptions += [
-        "xxh3 is not modelled: the key hash observed from Key.XXHash is passed to the model as data; independence of the "
-        "timestamp is checked on the real code by the direct oracle (same key, other timestamps)",
+        "xxh3 is not modelled: the key hash observed from Key.XXHash is passed to the model as data; the bytes it hashes "
+        "(MarshalAppend output minus its first 4 bytes) ARE modelled and compared byte for byte (op 'key'); independence of "
+        "the timestamp is a theorem for every hash function and is also checked on the real code by the direct oracle",
         "goTicker is an endless wall-clock loop and cannot be called: its 'not ours -> continue' guard is pinned as source text "
         "(go/parser) in SH/Gen/C10.lean and compared with the expression the model uses (theorem gen_ticker_guard)",
         "the aggregator handler is the real one, called with an empty source bucket through rpc.HandlerContext.ResetTo "
@@ -67,10 +68,16 @@ META = {
              "every uint32 second and each ordered pair (primary, spare) occurs exactly once in any 6 consecutive seconds; the "
              "rounding loop moves a second forward by at most 2 to one the replica owns; the recent window produced by "
              "advanceRecentBuckets is contiguous; every second the handler accepts is filed into a window bucket whose time "
-             "is owned by this replica and at most 2 s later, or under its own time in the historic map. The model is tied to "
-             "the code by replaying generated cases on the real functions and on the compiled model."),
+             "is owned by this replica and at most 2 s later, or under its own time in the historic map (filed_in_own_bucket); "
+             "filed_general / round_general drop the hypothesis t+2 < 2^32 and state what the code does at the uint32 wrap "
+             "(the last two seconds can be filed into bucket 0..2, witness by decide and in the correspondence). "
+             "Timestamp independence (shard_ignores_ts): Key.MarshalAppend is modelled byte for byte (op 'key'), the bytes "
+             "Key.XXHash hashes are marshal[4:], and for every hash function two keys differing only in the timestamp get "
+             "the same primary, flag and secondary; tags_hash_lt_count: with a 64-bit hash the tags_hash shard is below the "
+             "by-metric count and accepted. The model is tied to the code by replaying generated cases on the real "
+             "functions and on the compiled model."),
     "note": ("Trusted: Lean kernel; correspondence on generated cases (exhaustive grids + random); xxh3 passed as data; goTicker's "
-             "ownership test tied syntactically only. Timestamp independence is by construction in the model (the timestamp is "
-             "not an input of the shard functions) and checked on the real code by the oracle."),
+             "ownership test tied syntactically only. xxh3 itself is any function of the hashed bytes; that the real hash is "
+             "computed from marshal[4:] is additionally checked on the real code by the oracle."),
     "design_ref": "DESIGN.md §6 C10",
 }
